@@ -217,3 +217,120 @@ generic(
     antecedent=lambda ln, v: is_create(ln) and wrote_something(ln) and any(h["gens"] for h in ln["pre"]["hist"]),
     antecedent_text="a create / create -sf that wrote a generation into a history that already had one",
 )
+
+
+def has_history(ln):
+    return any(h["gens"] for h in ln["pre"]["hist"])
+
+
+def nested(ln):
+    return len([h for h in ln["post"]["hist"] if h["gens"]]) > 1
+
+
+INV_C02 = ["Inv_C02_RecordSet", "Inv_C02_Digests", "Inv_C02_SingleFiles", "Inv_NoInternal"]
+generic(
+    "C02", "model_checking",
+    quick=[
+        dict(scope="tree", mode="simulate", num=60, depth=8, limit=500, mc_maxgens=1, invariants=INV_C02),
+        dict(scope="nest", mode="simulate", num=60, depth=8, limit=400, mc_maxgens=2, invariants=INV_C02),
+        dict(scope="ign", mode="simulate", num=40, depth=7, limit=300, mc=False),
+    ],
+    thorough=[
+        dict(scope="tree", mode="simulate", num=400, depth=10, mc_maxgens=2, invariants=INV_C02),
+        dict(scope="nest", mode="simulate", num=400, depth=10, mc_maxgens=3, invariants=INV_C02),
+        dict(scope="ign", mode="simulate", num=300, depth=8, mc_maxgens=2, invariants=INV_C02),
+        dict(scope="fmt3n", mode="simulate", num=300, depth=6, mc=False),
+    ],
+    pclauses=["P_C02_RecordSet", "P_C02_Digests", "P_C02_SingleFiles", "P_C02_Paths"],
+    antecedent=lambda ln, v: is_create(ln) and ln["exit"] in (0, 10, 11) and wrote_something(ln),
+    antecedent_text="a create / create -sf that wrote at least one generation (exit 0, 10 or 11)",
+)
+
+INV_C03 = ["Inv_C03_NoFalseAlarm", "Inv_C03_Altered", "Inv_C03_Removed", "Inv_C03_Added", "Inv_C03_Quiet", "Inv_NoInternal"]
+generic(
+    "C03", "model_checking",
+    quick=[
+        dict(scope="tree", mode="simulate", num=60, depth=8, limit=600, mc_maxgens=1, invariants=INV_C03, variants=[{"names": "plain"}, {"names": "mixed", "touch": True}]),
+        dict(scope="nest", mode="simulate", num=60, depth=8, limit=400, mc_maxgens=2, invariants=INV_C03),
+        dict(scope="ign", mode="simulate", num=40, depth=7, limit=300, mc=False),
+    ],
+    thorough=[
+        dict(scope="tree", mode="simulate", num=500, depth=10, mc_maxgens=2, invariants=INV_C03, variants=[{"names": "plain"}, {"names": "mixed", "touch": True}, {"names": "xml"}]),
+        dict(scope="nest", mode="simulate", num=400, depth=10, mc_maxgens=3, invariants=INV_C03),
+        dict(scope="ign", mode="simulate", num=300, depth=8, mc_maxgens=2, invariants=INV_C03),
+    ],
+    pclauses=["P_C03_NoFalseAlarm", "P_C03_Altered", "P_C03_Removed", "P_C03_Added", "P_C03_Quiet"],
+    antecedent=lambda ln, v: ln["op"]["op"] in ("create", "verify", "diff") and has_history(ln) and (
+        v.get("A_unchanged") or ln["exit"] in (10, 11, 21)),
+    antecedent_text="create / verify / diff on an existing history where the tree is unchanged since sealed, or where a discrepancy was reported",
+)
+
+INV_C08 = ["Inv_C08_Partition", "Inv_C08_ChildRoot", "Inv_C08_Refs", "Inv_C08_WhoWrites", "Inv_NoInternal"]
+generic(
+    "C08", "model_checking",
+    quick=[
+        dict(scope="nest", mode="simulate", num=120, depth=9, limit=900, mc_maxgens=2, invariants=INV_C08),
+    ],
+    thorough=[
+        dict(scope="nest", mode="simulate", num=800, depth=11, mc_maxgens=3, invariants=INV_C08),
+        dict(scope="fmt3n", mode="simulate", num=300, depth=6, mc_maxgens=3, invariants=INV_C08),
+        dict(scope="ign", mode="simulate", num=300, depth=8, mc=False),
+    ],
+    pclauses=["P_C08_Partition", "P_C08_ChildRoot", "P_C08_Refs", "P_C08_WhoWrites", "P_C08_RefBytes", "P_C08_Order"],
+    antecedent=lambda ln, v: is_create(ln) and nested(ln) and wrote_something(ln),
+    antecedent_text="a create / create -sf that wrote a generation while at least two (nested) histories exist",
+)
+
+INV_C12 = ["Inv_C12_Excluded", "Inv_C12_Accumulate", "Inv_C03_Quiet", "Inv_C02_RecordSet"]
+generic(
+    "C12", "model_checking",
+    quick=[
+        dict(scope="ign", mode="simulate", num=120, depth=8, limit=900, mc_maxgens=1, invariants=INV_C12),
+    ],
+    thorough=[
+        dict(scope="ign", mode="simulate", num=1200, depth=10, mc_maxgens=2, invariants=INV_C12),
+    ],
+    pclauses=["P_C12_Excluded", "P_C12_Accumulate", "P_C03_Quiet", "P_C07_Recorded", "P_C02_RecordSet"],
+    antecedent=lambda ln, v: bool(v.get("A_ign")),
+    antecedent_text="a command whose effective ignore patterns match at least one existing path",
+)
+
+
+INV_C14 = ["Inv_C14_Frame", "Inv_C06_AppendOnly", "Inv_NoInternal"]
+generic(
+    "C14", "model_checking",
+    quick=[
+        dict(scope="cmds", mode="simulate", num=60, depth=10, limit=600, mc_maxgens=1, invariants=INV_C14),
+        dict(scope="nest", mode="simulate", num=40, depth=8, limit=300, mc=False),
+    ],
+    thorough=[
+        dict(scope="cmds", mode="simulate", num=600, depth=12, mc_maxgens=2, invariants=INV_C14),
+        dict(scope="nest", mode="simulate", num=300, depth=10, mc=False),
+        dict(scope="ign", mode="simulate", num=200, depth=8, mc=False),
+        dict(scope="ren", mode="simulate", num=100, depth=9, mc=False),
+    ],
+    pclauses=["P_C14_Frame", "P_C14_DiskSame"],
+    antecedent=lambda ln, v: True,
+    antecedent_text="every executed command (read-only commands must leave an empty delta and issue no mutating call; create may add only manifests / chain files / ascmhl folders of the histories it writes)",
+)
+
+INV_C18 = ["Inv_C18_Summary", "Inv_C18_VerifyPL", "Inv_C14_Frame"]
+generic(
+    "C18", "model_checking",
+    quick=[dict(scope="flat", mode="simulate", num=120, depth=11, limit=900, mc_maxgens=2, invariants=INV_C18)],
+    thorough=[dict(scope="flat", mode="simulate", num=1500, depth=13, mc_maxgens=3, invariants=INV_C18)],
+    pclauses=["P_C18_Summary", "P_C18_VerifyPL", "P_C18_Valid", "P_C14_Frame"],
+    antecedent=lambda ln, v: ln["op"]["op"] in ("flatten", "verifypl") and ln["exit"] != 30 and has_history(ln),
+    antecedent_text="a flatten of an existing history, or a verify -pl against the packing list it wrote",
+)
+
+INV_C19 = ["Inv_C19_Info", "Inv_C19_InfoSF"]
+generic(
+    "C19", "model_checking",
+    quick=[dict(scope="inf", mode="simulate", num=120, depth=10, limit=900, mc_maxgens=2, invariants=INV_C19)],
+    thorough=[dict(scope="inf", mode="simulate", num=1500, depth=12, mc_maxgens=3, invariants=INV_C19),
+              dict(scope="cmds", mode="simulate", num=300, depth=10, mc=False)],
+    pclauses=["P_C19_Info", "P_C19_Dates", "P_C19_InfoSF"],
+    antecedent=lambda ln, v: ln["op"]["op"] in ("info", "infosf") and has_history(ln),
+    antecedent_text="info / info -sf while some history exists",
+)
